@@ -494,8 +494,45 @@ CORPUS = [
 ]
 
 
+def _corpus_files():
+    import glob
+    import json
+    import os
+    from common.coqlit import uncanon
+    root = os.path.join(os.environ.get('VERIF_ROOT', '/verif'), 'corpus', 'C05')
+    out = []
+    for path in sorted(glob.glob(os.path.join(root, '*.json'))):
+        out.append(uncanon(json.load(open(path))['case']))
+    return out
+
+
+def _reuse_case(rng):
+    """timed manager, a persisted dataset that is unpersisted and used again, time passing: the family
+    in which stale stamps of _time_added matter"""
+    tmo = rng.choice([3, 5, 8, 10])
+    pool = rng.random() < 0.2
+    pipe = _rand_pipeline(rng, 1)
+    nn = len(pipe[2])
+    pj = [q + 1 for q, s in enumerate(pipe[2]) if s[0] == PERSIST]
+    h = []
+    for _ in range(rng.randint(3, 8)):
+        x = rng.random()
+        if x < 0.45:
+            kd = rng.choice([0, 0, 0, 1, 2, 3])
+            h.append((0, 0, rng.choice(pj + [nn]), kd, rng.choice([1, 2, 3]) if kd == 2 else 0))
+        elif x < 0.65:
+            h.append((1, 0, rng.choice(pj)))
+        elif x < 0.9:
+            h.append((2, rng.choice([1, 2, 3, 4, 5])))
+        else:
+            h.append((3, 0))
+    return ([tmo], [(0, pool)], [pipe], h)
+
+
 def generate(rng, tier):
-    cases = list(CORPUS)
+    cases = list(CORPUS) + _corpus_files()
+    for _ in range(200 if tier == 'quick' else 3000):
+        cases.append(_reuse_case(rng))
     cases += _exhaustive(rng, tier)
     n = 1500 if tier == 'quick' else 20000
     for _ in range(n):
